@@ -12,13 +12,20 @@ from . import c02, c03
 from .common import loc
 
 EXPLANATION = (
-    "static analysis of the six monotonic terms: is_monotonic() is True iff the class overrides tsukamoto() (all other "
-    "terms inherit the refusing default); def-use: every parameter that membership() reads - the height in particular "
-    "- is also read by tsukamoto(), and the result depends on the activation degree passed in (the three defects "
-    "recorded in HISTORY.md are violations of exactly these conditions); elementwise safety of the inverse kernels"
+    "static analysis of the six monotonic terms. I1: membership(tsukamoto(y)) == y for 0 < y < height, decided piece by piece over "
+    "real arithmetic: for every order type of the parameters (both directions, both sides of the origin) and of y against height/2, "
+    "the resolved Tsukamoto term is brought to a rational-function normal form (sqrt/log/exp as function symbols with sqrt(A)^2=A, "
+    "exp(log A)=A, sqrt of factored perfect squares), substituted for x in the resolved membership kernel - whose conditions are "
+    "decided by the sign of factored normal forms (including a*sqrt(A)+b through a^2*A-b^2) - and the result must be the normal form "
+    "`y`; where the piece is not decided, at least one piece of the kernel must be inverted by the formula. I2: the value is a real "
+    "number (no square root / logarithm outside its domain, no vanishing denominator). M1: is_monotonic() is True iff the class "
+    "overrides tsukamoto(); D3: every parameter membership() reads is read by tsukamoto(); elementwise safety of the inverse kernels"
 )
-ASSUMPTIONS = ["mu(z(y)) = y, finiteness inside (0,h) and the direction of monotonicity are numeric and not decided"]
-FLOORS = {"M1": 26, "D3": 12, "V1": 6}
+ASSUMPTIONS = [
+    "real arithmetic (rounding not modelled); y strictly between 0 and height; parameters finite, start != end (SShape/ZShape: start < end)",
+    "the direction of monotonicity of z(y) is not decided separately (it follows from the identity and the monotonicity of the term)",
+]
+FLOORS = {"M1": 26, "D3": 12, "V1": 6, "I1": 6, "I2": 6}
 
 
 def run(check: Check) -> None:
@@ -46,3 +53,146 @@ def run(check: Check) -> None:
         check.require(dep, "D3", f"{c.name}.tsukamoto/argument", "the Tsukamoto value depends on the activation degree" if dep else
                       "the Tsukamoto value does not depend on its argument", loc(ts))
         c02.kernel_elementwise(check, ts, "V1", f"{c.name}.tsukamoto")
+    inverse_identity(check)
+
+
+# ------------------------------------------------------------------------------------------------ I1
+VALID_PARAMS = {"Arc": "s != e", "Concave": "i != e", "Ramp": "s != e", "Sigmoid": None, "SShape": "s < e", "ZShape": "s < e"}
+PARAM_NAMES = {"Arc": {"s": "start", "e": "end"}, "Concave": {"i": "inflection", "e": "end"}, "Ramp": {"s": "start", "e": "end"},
+               "Sigmoid": {}, "SShape": {"s": "start", "e": "end"}, "ZShape": {"s": "start", "e": "end"}}
+
+
+def where_free(t, limit: int = 64):  # type: ignore[no-untyped-def]
+    """All terms obtained by replacing every np.where(c, a, b) by one of its branches (the pieces of a piecewise kernel)."""
+    def alts(u):  # type: ignore[no-untyped-def]
+        if not (isinstance(u, tuple) and u and isinstance(u[0], str)):
+            if isinstance(u, tuple):
+                out = [()]
+                for q in u:
+                    out = [o + (a,) for o in out for a in alts(q)][:limit]
+                return out
+            return [u]
+        if u[0] == "call" and u[1] == ("global", "numpy.where") and len(u[2]) == 3:
+            return (alts(u[2][1]) + alts(u[2][2]))[:limit]
+        out = [()]
+        for q in u:
+            out = [o + (a,) for o in out for a in alts(q)][:limit]
+        return out
+
+    return alts(t)
+
+
+def inverse_identity(check: Check) -> None:
+    """I1: membership(tsukamoto(y)) == y for 0 < y < height, decided piece by piece: for every order type of the parameters and of y
+    against height / 2, the Tsukamoto value is brought to a normal form, substituted for x in the (flattened) membership kernel - whose
+    conditions are decided by the sign of factored normal forms - and the result must be the normal form `y`. I2: the value is finite."""
+    from fractions import Fraction
+
+    from ..absint import FINITE, NAN, Abs, show_abs
+    from ..algebra import Algebra
+    from ..ordertype import (IsNaN, LinearForms, NotAlgebraic, OrderEval, abs_sign_oracle, make_algebra, comparison_forms, describe, domain, exact_value, flatten, leaf_env,
+                             numeric_witness, order_types, spec_term)
+    from ..sym import show
+
+    p = check.program
+    for name in sorted(VALID_PARAMS):
+        c = p.cls(name)
+        ts, ms = c.lookup("tsukamoto"), c.lookup("membership")
+        Y = ("param", ts.params[1].name)
+        X = ("param", ms.params[1].name)
+        H = ("attr", ("param", "self"), "height")
+        ZERO_ = ("const", 0)
+        z_term = flatten(p, return_term(p, c, "tsukamoto"))
+        m_term = flatten(p, return_term(p, c, "membership"))
+
+        def subst(u):  # type: ignore[no-untyped-def]
+            if isinstance(u, tuple) and u and isinstance(u[0], str):
+                return z_term if u == X else tuple(subst(q) for q in u)
+            return tuple(subst(q) for q in u) if isinstance(u, tuple) else u
+
+        composed = subst(m_term)
+        atoms: dict = {ZERO_: "pinned", Y: "position", H: "position"}
+        grids: dict = {ZERO_: [Fraction(0)], H: [Fraction(204)], Y: [Fraction(101), Fraction(102), Fraction(103)]}
+        for prm in c03.shape_params(c):
+            a = ("attr", ("param", "self"), prm)
+            atoms[a] = "nonzero" if prm in c03.NONZERO else "position"
+            if atoms[a] == "position":
+                grids[a] = [Fraction(-8), Fraction(-4), Fraction(4), Fraction(8)]  # both sides of the origin, below y and height
+        names = {k: ("attr", ("param", "self"), v) for k, v in PARAM_NAMES[name].items()}
+        valid_t = spec_term(VALID_PARAMS[name], names) if VALID_PARAMS[name] else None
+        lf0 = LinearForms({a: 0 for a in atoms}, atoms, {})
+        forms = comparison_forms(lf0, [z_term, m_term] + ([valid_t] if valid_t is not None else []))
+
+        def valid(lf, valid_t=valid_t) -> bool:  # type: ignore[no-untyped-def]
+            return valid_t is None or OrderEval(p, lf, leaf_env(lf)).ev(valid_t) == frozenset({True})
+
+        short = {Y: "y", H: "h", ZERO_: "0", **{a: a[2] for a in atoms if a[0] == "attr"}}
+        n = n_id = n_fin = 0
+        wrong, nonfinite, undecided = [], [], []
+        for lf in order_types(atoms, forms, valid, grids):
+            n += 1
+            where = describe(lf, short)
+            ev = OrderEval(p, lf, leaf_env(lf))
+            alg = make_algebra(lf)
+            ev.alg = alg  # comparisons of normal forms are decided by factoring
+            zc = ev.ev(z_term)
+            try:
+                zd = domain(exact_value(z_term, ev, alg), lf, alg)
+            except IsNaN:
+                zd = False
+            except NotAlgebraic:
+                zd = None
+            if zd is False or not (set(zc) & set(FINITE)):
+                nonfinite.append((where, show_abs(zc) if zd is not False else "not a real number (a square root / logarithm outside its domain, or 0/0)"))
+            elif zd is True or set(zc) <= set(FINITE):
+                n_fin += 1
+            try:
+                got = exact_value(composed, ev, alg)
+            except IsNaN:
+                wrong.append((where, "nan"))
+                continue
+            except NotAlgebraic as ex:
+                # the piece the value falls into is not decided here: at least one piece of the kernel must be inverted by the formula
+                from ..algebra import Rat
+
+                outcomes = []
+                for piece in [subst(m_piece) for m_piece in where_free(m_term)]:
+                    try:
+                        r_ = exact_value(piece, ev, alg)
+                    except (IsNaN, NotAlgebraic):
+                        continue
+                    if r_.equals(Rat.sym(Y)):
+                        outcomes = None
+                        break
+                    w = c03._Witness(numeric_witness(lf))
+                    v = alg.evaluate(r_, w)
+                    if not (v == v and abs(v - float(lf.val[Y])) > 1e-9 * max(1.0, abs(v))):
+                        outcomes = None  # not provably different
+                        break
+                    outcomes.append(r_.show(alg.name(short))[:80])
+                if outcomes:
+                    wrong.append((where, f"never y, whichever piece of the membership function applies ({'; '.join(sorted(set(outcomes))[:3])})"))
+                else:
+                    undecided.append((where, str(ex)[:80]))
+                continue
+            from ..algebra import Rat
+
+            if got.equals(Rat.sym(Y)):
+                n_id += 1
+                continue
+            w = c03._Witness(numeric_witness(lf))
+            v = alg.evaluate(got, w)
+            if v == v and abs(v - float(lf.val[Y])) > 1e-9 * max(1.0, abs(v)):
+                wrong.append((where, got.show(alg.name(short))[:160]))
+            else:
+                undecided.append((where, "normal form differs from y without a numeric difference at the witness"))
+        if n == 0:
+            raise AnalysisError(f"{name}: no order type enumerated for the inverse")
+        check.require(not wrong, "I1", f"{name}.tsukamoto/inverse",
+                      f"{name}: membership(tsukamoto(y)) reduces to y at {n_id} of {n} order types (0 < y < height, y against height/2, both directions)"
+                      + (f"; undecided at {len(undecided)}" if undecided else "") if not wrong else
+                      f"{name}: at `{wrong[0][0]}` membership(tsukamoto(y)) is {wrong[0][1]} instead of y" + (f" (and {len(wrong) - 1} more order types)" if len(wrong) > 1 else ""),
+                      loc(ts), {"order_types": n, "identity": n_id, "undecided": undecided[:4], "wrong": wrong[:4]}, exhaustive=True, cases=n)
+        check.require(not nonfinite, "I2", f"{name}.tsukamoto/finite",
+                      f"{name}: the Tsukamoto value is never definitely NaN or infinite for 0 < y < height (finite at {n_fin} of {n} order types)" if not nonfinite else
+                      f"{name}: at `{nonfinite[0][0]}` the Tsukamoto value is {nonfinite[0][1]}", loc(ts), {"order_types": n, "finite": n_fin}, exhaustive=True, cases=n)
